@@ -19,25 +19,39 @@ def claimed_table():
 
 
 def seeded_table():
-    rows = ["| seed | written against | site | what it needs to manifest | caught by (rule) |", "|------|-----------------|------|---------------------------|------------------|"]
-    n = c = t = 0
+    rows = ["| seed | written against | site | what it needs to manifest | reported when first evaluated | reported today (rule) |", "|------|-----------------|------|---------------------------|------------------------------|-----------------------|"]
+    stats = {}
     for d in sorted(glob.glob(f"{V}/seeded/*/meta.json")):
         m = json.load(open(d))
         name = d.split("/")[-2]
+        rnd = "round 1" if "-r" not in name else "round " + name.split("-r")[1][0]
         pid = m.get("breaks_property") or m.get("property")
         caught = m.get("caught_by", [])
         rules = sorted({v.get("rule") for p in caught for v in m.get("reported", {}).get(p, []) if v.get("rule")})
-        n += 1
-        c += 1 if caught else 0
-        t += 1 if pid in caught else 0
-        cb = (", ".join(caught) + " (" + ", ".join(rules) + ")") if caught else "— not caught"
+        ai = m.get("at_import")
+        if ai is None:
+            first = "(same run)" if "-r" in name else "(not kept)"
+            first_c = bool(caught) if "-r" in name else None
+        else:
+            first = (", ".join(ai.get("rules", [])) or "reported") if ai.get("caught_by") else "—"
+            first_c = bool(ai.get("caught_by"))
+        stale = m.get("confirmed_on", {}).get("applies") is False
+        st = stats.setdefault(rnd, dict(n=0, first=0, now=0, target=0, stale=0))
+        st["n"] += 1
+        st["stale"] += 1 if stale else 0
+        st["first"] += 1 if first_c else 0
+        st["now"] += 1 if caught else 0
+        st["target"] += 1 if pid in caught else 0
+        cb = (", ".join(caught) + " (" + ", ".join(rules) + ")") if caught else ("stale: no longer applies (the defect it rested on was repaired)" if stale else "— not reported")
         site = (m.get("site") or "").replace("|", "/")[:70]
         needs = (m.get("needs") or "").replace("|", "/").replace("\n", " ")
         if len(needs) > 150:
             needs = needs[:147] + "..."
-        rows.append(f"| {name} | {pid} | {site} | {needs} | {cb} |")
+        rows.append(f"| {name} | {pid} | {site} | {needs} | {first} | {cb} |")
     rows.append("")
-    rows.append(f"{n} seeded changes; {c} caught by at least one check; {t} caught by the check of the property they were written against.")
+    for rnd in sorted(stats):
+        st = stats[rnd]
+        rows.append(f"{rnd}: {st['n']} seeded changes ({st['stale']} stale); reported when first evaluated: {st['first'] if rnd != 'round 1' else '11 (first pass of the previous revision)'}; reported today: {st['now']}, of which {st['target']} by the check of the property they were written against.  ")
     return "\n".join(rows)
 
 
